@@ -89,7 +89,7 @@ Used(c) == Range(c.sq) \cup c.bor \cup c.cq
 \* reaches zero is deallocated (release_chunk: deallocate_bucket when the old value was 1)
 Apply(m, d(_)) ==
     LET dom == {x \in DOMAIN m : m[x].rc + d(x) # 0}
-    IN  [x \in dom |-> [c |-> m[x].c, rc |-> m[x].rc + d(x)]]
+    IN  TLCEval([x \in dom |-> [c |-> m[x].c, rc |-> m[x].rc + d(x)]])
 ChunksInUse(p) == {ck[p][x].c : x \in DOMAIN ck[p]}
 FreeChunks(p) == (0 .. pn[p] - 1) \ ChunksInUse(p)
 
@@ -100,39 +100,39 @@ EmptyMap == [x \in {} |-> 0]
 \* initial state / reset
 InitWith(q) ==
     /\ cfg = q
-    /\ pst = [p \in PubIds |-> "new"]
-    /\ pn = [p \in PubIds |-> 0]
-    /\ sst = [s \in SubIds |-> "new"]
-    /\ sbuf = [s \in SubIds |-> 0]
-    /\ sreq = [s \in SubIds |-> 0]
-    /\ conn = [x \in Pairs |-> EmptyConn]
-    /\ hist = [p \in PubIds |-> <<>>]
-    /\ loans = [p \in PubIds |-> {}]
-    /\ ck = [p \in PubIds |-> EmptyMap]
+    /\ pst = TLCEval([p \in PubIds |-> "new"])
+    /\ pn = TLCEval([p \in PubIds |-> 0])
+    /\ sst = TLCEval([s \in SubIds |-> "new"])
+    /\ sbuf = TLCEval([s \in SubIds |-> 0])
+    /\ sreq = TLCEval([s \in SubIds |-> 0])
+    /\ conn = TLCEval([x \in Pairs |-> EmptyConn])
+    /\ hist = TLCEval([p \in PubIds |-> <<>>])
+    /\ loans = TLCEval([p \in PubIds |-> {}])
+    /\ ck = TLCEval([p \in PubIds |-> EmptyMap])
     /\ nextid = 1
     /\ out = NoOut
-    /\ slog = [p \in PubIds |-> <<>>]
-    /\ regAt = [x \in Pairs |-> 0]
-    /\ rcvd = [x \in Pairs |-> <<>>]
-    /\ evicted = [x \in Pairs |-> {}]
+    /\ slog = TLCEval([p \in PubIds |-> <<>>])
+    /\ regAt = TLCEval([x \in Pairs |-> 0])
+    /\ rcvd = TLCEval([x \in Pairs |-> <<>>])
+    /\ evicted = TLCEval([x \in Pairs |-> {}])
 
 Reset(q) ==
     /\ cfg' = q
-    /\ pst' = [p \in PubIds |-> "new"]
-    /\ pn' = [p \in PubIds |-> 0]
-    /\ sst' = [s \in SubIds |-> "new"]
-    /\ sbuf' = [s \in SubIds |-> 0]
-    /\ sreq' = [s \in SubIds |-> 0]
-    /\ conn' = [x \in Pairs |-> EmptyConn]
-    /\ hist' = [p \in PubIds |-> <<>>]
-    /\ loans' = [p \in PubIds |-> {}]
-    /\ ck' = [p \in PubIds |-> EmptyMap]
+    /\ pst' = TLCEval([p \in PubIds |-> "new"])
+    /\ pn' = TLCEval([p \in PubIds |-> 0])
+    /\ sst' = TLCEval([s \in SubIds |-> "new"])
+    /\ sbuf' = TLCEval([s \in SubIds |-> 0])
+    /\ sreq' = TLCEval([s \in SubIds |-> 0])
+    /\ conn' = TLCEval([x \in Pairs |-> EmptyConn])
+    /\ hist' = TLCEval([p \in PubIds |-> <<>>])
+    /\ loans' = TLCEval([p \in PubIds |-> {}])
+    /\ ck' = TLCEval([p \in PubIds |-> EmptyMap])
     /\ nextid' = 1
     /\ out' = NoOut
-    /\ slog' = [p \in PubIds |-> <<>>]
-    /\ regAt' = [x \in Pairs |-> 0]
-    /\ rcvd' = [x \in Pairs |-> <<>>]
-    /\ evicted' = [x \in Pairs |-> {}]
+    /\ slog' = TLCEval([p \in PubIds |-> <<>>])
+    /\ regAt' = TLCEval([x \in Pairs |-> 0])
+    /\ rcvd' = TLCEval([x \in Pairs |-> <<>>])
+    /\ evicted' = TLCEval([x \in Pairs |-> {}])
 
 -----------------------------------------------------------------------------
 \* publisher side connection update (force_update_connections)
@@ -158,7 +158,7 @@ DUpdate(p, reclaim, x) ==
 
 \* subscriber side connection update: attaches the receiver side to every registered publisher
 SubAttach(cn, s) ==
-    [x \in Pairs |-> IF x[2] = s /\ pst[x[1]] = "live" THEN [cn[x] EXCEPT !.sa = TRUE] ELSE cn[x]]
+    TLCEval([x \in Pairs |-> IF x[2] = s /\ pst[x[1]] = "live" THEN [cn[x] EXCEPT !.sa = TRUE] ELSE cn[x]])
 
 -----------------------------------------------------------------------------
 \* actions
@@ -172,8 +172,8 @@ CreatePublisher(p, n) ==
             /\ pn' = [pn EXCEPT ![p] = n]
             \* force_update_connections of the new port: connects to every registered subscriber,
             \* the history is still empty
-            /\ conn' = [x \in Pairs |-> IF x[1] = p /\ Registered(x[2])
-                                         THEN [conn[x] EXCEPT !.pa = TRUE] ELSE conn[x]]
+            /\ conn' = TLCEval([x \in Pairs |-> IF x[1] = p /\ Registered(x[2])
+                                         THEN [conn[x] EXCEPT !.pa = TRUE] ELSE conn[x]])
             /\ out' = [a |-> "create_pub", p |-> p, r |-> "ok"]
             /\ UNCHANGED <<cfg, sst, sbuf, sreq, hist, loans, ck, nextid, ghostvars>>
 
@@ -184,14 +184,14 @@ DropPublisher(p) ==
     /\ pst' = [pst EXCEPT ![p] = "dead"]
     \* the sender sides go away; a connection survives on the subscriber side (expired connection)
     \* iff the receiver is attached and it still holds data or borrows
-    /\ conn' = [x \in Pairs |->
+    /\ conn' = TLCEval([x \in Pairs |->
                   IF x[1] # p THEN conn[x]
                   ELSE LET c == conn[x] IN
                        IF c.pa /\ c.sa /\ sst[x[2]] = "live" /\ (c.sq # <<>> \/ c.bor # {})
                        THEN [c EXCEPT !.pa = FALSE, !.cq = {}]
                        ELSE IF c.pa /\ c.sa /\ sst[x[2]] = "abandoned"
                        THEN [c EXCEPT !.pa = FALSE, !.cq = {}]
-                       ELSE EmptyConn]
+                       ELSE EmptyConn])
     /\ hist' = [hist EXCEPT ![p] = <<>>]
     /\ ck' = [ck EXCEPT ![p] = EmptyMap]
     /\ out' = [a |-> "drop_pub", p |-> p]
@@ -213,7 +213,7 @@ CreateSubscriber(s, b, r) ==
             /\ sbuf' = [sbuf EXCEPT ![s] = b]
             /\ sreq' = [sreq EXCEPT ![s] = r]
             /\ conn' = SubAttach(conn, s)
-            /\ regAt' = [x \in Pairs |-> IF x[2] = s THEN Len(slog[x[1]]) ELSE regAt[x]]
+            /\ regAt' = TLCEval([x \in Pairs |-> IF x[2] = s THEN Len(slog[x[1]]) ELSE regAt[x]])
             /\ out' = [a |-> "create_sub", s |-> s, buf |-> b, req |-> r, r |-> "ok"]
             /\ UNCHANGED <<cfg, pst, pn, hist, loans, ck, nextid, slog, rcvd, evicted>>
 
@@ -222,9 +222,9 @@ CreateSubscriber(s, b, r) ==
 DropSubscriber(s) ==
     /\ sst[s] = "live"
     /\ sst' = [sst EXCEPT ![s] = "dead"]
-    /\ conn' = [x \in Pairs |->
+    /\ conn' = TLCEval([x \in Pairs |->
                   IF x[2] # s THEN conn[x]
-                  ELSE IF conn[x].pa THEN [conn[x] EXCEPT !.sa = FALSE] ELSE EmptyConn]
+                  ELSE IF conn[x].pa THEN [conn[x] EXCEPT !.sa = FALSE] ELSE EmptyConn])
     /\ out' = [a |-> "drop_sub", s |-> s]
     /\ UNCHANGED <<cfg, pst, pn, sbuf, sreq, hist, loans, ck, nextid, ghostvars>>
 
@@ -236,7 +236,7 @@ AbandonSubscriber(s) ==
     /\ UNCHANGED <<cfg, pst, pn, sbuf, sreq, conn, hist, loans, ck, nextid, ghostvars>>
 
 \* retrieve_returned_chunks: reclaim the completion queue of every connection of p
-Reclaimed(p) == [x \in Pairs |-> IF x[1] = p /\ conn[x].pa THEN [conn[x] EXCEPT !.cq = {}] ELSE conn[x]]
+Reclaimed(p) == TLCEval([x \in Pairs |-> IF x[1] = p /\ conn[x].pa THEN [conn[x] EXCEPT !.cq = {}] ELSE conn[x]])
 DReclaim(p, x) == - Card({s \in PaSubs(p) : x \in C(p, s).cq})
 
 \* Loan: `c` is the chunk the allocator hands out (any chunk without a holder)
@@ -249,8 +249,8 @@ Loan(p, c) ==
             /\ UNCHANGED <<loans, nextid>>
        ELSE LET m == Apply(ck[p], LAMBDA x : DReclaim(p, x)) IN
             /\ c \notin {m[x].c : x \in DOMAIN m}            \* LoanFromFree
-            /\ ck' = [ck EXCEPT ![p] = [x \in DOMAIN m \cup {nextid} |->
-                                           IF x = nextid THEN [c |-> c, rc |-> 1] ELSE m[x]]]
+            /\ ck' = [ck EXCEPT ![p] = TLCEval([x \in DOMAIN m \cup {nextid} |->
+                                           IF x = nextid THEN [c |-> c, rc |-> 1] ELSE m[x]])]
             /\ loans' = [loans EXCEPT ![p] = @ \cup {nextid}]
             /\ nextid' = nextid + 1
             /\ out' = [a |-> "loan", p |-> p, r |-> "ok", id |-> nextid]
@@ -281,7 +281,7 @@ ProbeLoans(p, cs) ==
 UpdatePub(p) ==
     /\ pst[p] = "live"
     /\ LET rec == ReclaimOnUpdate(p) IN
-       /\ conn' = [x \in Pairs |-> IF x[1] = p THEN ConnAfterUpdate(p, x[2], rec) ELSE conn[x]]
+       /\ conn' = TLCEval([x \in Pairs |-> IF x[1] = p THEN ConnAfterUpdate(p, x[2], rec) ELSE conn[x]])
        /\ ck' = [ck EXCEPT ![p] = Apply(@, LAMBDA x : DUpdate(p, rec, x))]
     /\ out' = [a |-> "update_pub", p |-> p]
     /\ UNCHANGED <<cfg, pst, pn, sst, sbuf, sreq, hist, loans, nextid, ghostvars>>
@@ -307,12 +307,12 @@ Send(p, id) ==
                    - Card({s \in T : Ev(s) # 0 /\ Ev(s) = x})
                    - B(x = id)
        IN
-       /\ conn' = [x \in Pairs |->
+       /\ conn' = TLCEval([x \in Pairs |->
                      IF x[1] # p THEN conn[x]
                      ELSE LET s == x[2] IN
                           IF s \in acc
                           THEN [row1(s) EXCEPT !.sq = Append(IF Full(s) THEN Tail(@) ELSE @, id)]
-                          ELSE row1(s)]
+                          ELSE row1(s)])
        /\ hist' = [hist EXCEPT ![p] = IF cfg.hist = 0 THEN <<>>
                                       ELSE Append(IF hev # 0 THEN Tail(@) ELSE @, id)]
        /\ ck' = [ck EXCEPT ![p] = Apply(@, d)]
@@ -320,8 +320,8 @@ Send(p, id) ==
        /\ out' = [a |-> "send", p |-> p, id |-> id, r |-> res, n |-> IF res = "ok" THEN Card(acc) ELSE 0, blk |-> Card(blk)]
        /\ slog' = [slog EXCEPT ![p] = Append(@, [id |-> id, acc |-> acc, rej |-> rej,
                                                   n |-> IF res = "ok" THEN Card(acc) ELSE -1])]
-       /\ evicted' = [x \in Pairs |-> IF x[1] = p /\ x[2] \in T /\ Ev(x[2]) # 0
-                                       THEN evicted[x] \cup {Ev(x[2])} ELSE evicted[x]]
+       /\ evicted' = TLCEval([x \in Pairs |-> IF x[1] = p /\ x[2] \in T /\ Ev(x[2]) # 0
+                                       THEN evicted[x] \cup {Ev(x[2])} ELSE evicted[x]])
     /\ UNCHANGED <<cfg, pst, pn, sst, sbuf, sreq, nextid, regAt, rcvd>>
 
 \* connections of s that hold data / from which a receive is possible (after its connection update)
@@ -392,29 +392,40 @@ MCProbe(p) ==
     /\ Card(free) >= k
     /\ ProbeLoans(p, SortedSeq(KSmallest(free, k)))
 
+\* one named action per API call (TLC's coverage is reported per name)
+ACreatePublisher == \E p \in NextNewP : CreatePublisher(p, NChunks)
+ADropPublisher == \E p \in PubIds : DropPublisher(p)
+ACreateSubscriber == \E s \in NextNewS, b \in BufChoices, r \in ReqChoices : CreateSubscriber(s, b, r)
+ADropSubscriber == \E s \in SubIds : DropSubscriber(s)
+ALoan == \E p \in PubIds : pst[p] = "live" /\ MCLoan(p)
+ASend == \E p \in PubIds : \E id \in loans[p] : Send(p, id)
+ADropLoan == \E p \in PubIds : \E id \in loans[p] : DropLoan(p, id)
+AReceive == \E s \in SubIds, p \in PubIds : Receive(s, p)
+ADropSample == \E s \in SubIds : \E p \in PubIds : \E id \in C(p, s).bor : DropSample(s, id)
+AUpdatePub == \E p \in PubIds : UpdatePub(p)
+AUpdateSub == \E s \in SubIds : UpdateSub(s)
+AHasSamples == \E s \in SubIds : HasSamples(s)
+AProbeLoans == \E p \in PubIds : pst[p] = "live" /\ MCProbe(p)
+
 MCNext ==
-    \/ \E p \in NextNewP : CreatePublisher(p, NChunks)
-    \/ \E p \in PubIds : DropPublisher(p)
-    \/ \E s \in NextNewS, b \in BufChoices, r \in ReqChoices : CreateSubscriber(s, b, r)
-    \/ \E s \in SubIds : DropSubscriber(s)
-    \/ \E p \in PubIds : pst[p] = "live" /\ MCLoan(p)
-    \/ \E p \in PubIds : \E id \in loans[p] : Send(p, id)
-    \/ \E p \in PubIds : \E id \in loans[p] : DropLoan(p, id)
-    \/ \E s \in SubIds, p \in PubIds : Receive(s, p)
-    \/ \E s \in SubIds : \E p \in PubIds : \E id \in C(p, s).bor : DropSample(s, id)
-    \/ \E p \in PubIds : UpdatePub(p)
-    \/ \E s \in SubIds : UpdateSub(s)
-    \/ \E s \in SubIds : HasSamples(s)
-    \/ \E p \in PubIds : pst[p] = "live" /\ MCProbe(p)
+    \/ ACreatePublisher \/ ADropPublisher \/ ACreateSubscriber \/ ADropSubscriber
+    \/ ALoan \/ ASend \/ ADropLoan \/ AReceive \/ ADropSample
+    \/ AUpdatePub \/ AUpdateSub \/ AHasSamples \/ AProbeLoans
 
 MCInit == InitWith(Q)
 MCSpec == MCInit /\ [][MCNext]_vars
 
-\* VIEW for the deeper instances: hides the ghost history and the last result
+\* VIEWs: the last result `out` is never part of the fingerprint (it is a function of the transition,
+\* the action properties over it are still evaluated on every transition); the deeper instances also
+\* hide the ghost history
+NoOutView == <<sysvars, ghostvars>>
 SysView == sysvars
 
 -----------------------------------------------------------------------------
 \* invariants
+
+\* pairs of instances that both exist(ed) - everything else is still in its initial state
+ActivePairs == {x \in Pairs : pst[x[1]] # "new" /\ sst[x[2]] # "new"}
 
 ConnOK(c) == /\ c.pa \in BOOLEAN /\ c.sa \in BOOLEAN
              /\ NoDup(c.sq)
@@ -423,7 +434,8 @@ TypeOK ==
     /\ QosOK(cfg)
     /\ \A p \in PubIds : pst[p] \in {"new", "live", "dead"}
     /\ \A s \in SubIds : sst[s] \in {"new", "live", "abandoned", "dead"}
-    /\ \A x \in Pairs : ConnOK(conn[x])
+    /\ \A x \in Pairs : x \in ActivePairs \/ conn[x] = EmptyConn
+    /\ \A x \in ActivePairs : ConnOK(conn[x])
     /\ \A p \in PubIds : \A x \in DOMAIN ck[p] : ck[p][x].rc >= 1
     /\ \A p \in PubIds : pst[p] # "live" => loans[p] = {} /\ hist[p] = <<>> /\ DOMAIN ck[p] = {}
 
@@ -439,12 +451,12 @@ Expected(p, s) ==
 Observable(p, s) == sst[s] = "live" /\ (C(p, s).pa \/ (pst[p] = "dead" /\ C(p, s).sa))
 
 Order ==
-    \A x \in Pairs : /\ NoDup(rcvd[x])
+    \A x \in ActivePairs : /\ NoDup(rcvd[x])
                      /\ IsSubseq(rcvd[x], Expected(x[1], x[2]))
 
 LossOverflow ==
     cfg.overflow =>
-    \A x \in Pairs : Observable(x[1], x[2]) =>
+    \A x \in ActivePairs : Observable(x[1], x[2]) =>
         LET E == Expected(x[1], x[2])
             q == conn[x].sq IN
         /\ IsSuffix(q, E)                                       \* nothing newer than the buffer is lost
@@ -455,7 +467,7 @@ LossOverflow ==
 LogEntry(p, y) == slog[p][CHOOSE i \in DOMAIN slog[p] : slog[p][i].id = y]
 LossNoOverflow ==
     ~cfg.overflow =>
-    \A x \in Pairs : Observable(x[1], x[2]) =>
+    \A x \in ActivePairs : Observable(x[1], x[2]) =>
         LET E == Expected(x[1], x[2])
             q == conn[x].sq IN
         /\ evicted[x] = {}
@@ -496,8 +508,8 @@ LimitsRespected ==
     /\ Card(LiveP) <= cfg.maxpubs
     /\ Card(RegS) <= cfg.maxsubs
     /\ \A p \in PubIds : Card(loans[p]) <= cfg.loan /\ Len(hist[p]) <= cfg.hist
-    /\ \A x \in Pairs : Card(conn[x].bor) <= cfg.borrow
-    /\ \A x \in Pairs : conn[x].pa \/ conn[x].sa => Len(conn[x].sq) <= sbuf[x[2]]
+    /\ \A x \in ActivePairs : Card(conn[x].bor) <= cfg.borrow
+    /\ \A x \in ActivePairs : conn[x].pa \/ conn[x].sa => Len(conn[x].sq) <= sbuf[x[2]]
 \* beyond: a rejected call has no side effect on anything observable
 Errors == {"ExceedsMaxSupportedPublishers", "ExceedsMaxSupportedSubscribers", "ExceedsMaxLoans",
            "ExceedsMaxBorrows", "BufferSizeExceedsMaxSupportedBufferSizeOfService",
